@@ -1,6 +1,6 @@
 (** C05 — lemmas about Model/C05_Latent.v: sums over index lists, the contribution vector of the four decision
     encodings, the criterion families in subset form and in contribution-vector form, order and scale invariance,
-    the Gram identity, and the binary64 allele-availability thresholds. *)
+    the Gram identity, the declared number of latent values.  (The binary64 allele-availability thresholds: Proofs/C05_Avail.v.) *)
 From Coq Require Import PrimFloat Permutation Setoid Morphisms.
 From PV Require Import Lib.Common Lib.FloatK Model.C05_Latent.
 Local Open Scope Q_scope.
@@ -637,95 +637,15 @@ Proof. revert v j. induction w as [|a w IH]; intros [|b v] [|j] H1 H2; cbn in *;
 Lemma map2_len (w v : list Q) : length w = length v -> length (map2 Qmult w v) = length v.
 Proof. intros H. rewrite map2_length, H. apply Nat.min_id. Qed.
 
-(** * allele availability: the binary64 thresholds on the rounded-reciprocal frequency against the integer counts *)
-Local Open Scope Z_scope.
-Definition flags_ok (c N : Z) : bool :=
-  let pf := frecipZ c N in
-  Bool.eqb (PrimFloat.ltb pf 1%float) (c <? N) && Bool.eqb (PrimFloat.ltb 0%float pf) (0 <? c) &&
-  Bool.eqb (PrimFloat.leb pf 0%float) (c <=? 0) && Bool.eqb (PrimFloat.leb 1%float pf) (N <=? c).
-(** the sizes at which the rounded reciprocal is harmless: fl(fl(1/N) * N) = 1 *)
-Definition size_ok (N : Z) : bool := PrimFloat.eqb (frecipZ N N) 1%float.
-Definition check_size (N : nat) : bool :=
-  negb (size_ok (Z.of_nat N)) || forallb (fun c => flags_ok (Z.of_nat c) (Z.of_nat N)) (seq 0 (S N)).
-Definition check_upto (B : nat) : bool := forallb check_size (seq 1 B).
-Lemma check_1024 : forallb check_size (seq 1 1024) = true.
-Proof. vm_cast_no_check (eq_refl true). Qed.
-
-Lemma forallb_seq (f : nat -> bool) a n : forallb f (seq a n) = true -> forall i, (a <= i < a + n)%nat -> f i = true.
-Proof. intros H i Hi. rewrite forallb_forall in H. apply H, in_seq, Hi. Qed.
-Lemma check_size_spec (Nn : nat) : check_size Nn = true -> size_ok (Z.of_nat Nn) = true ->
-  forall cn, (cn <= Nn)%nat -> flags_ok (Z.of_nat cn) (Z.of_nat Nn) = true.
+(** * the declared number of latent values is the length of the latent vector, for every family, encoding and input *)
+Lemma latent_length n fd d v : latent n fd d = Some v -> length v = nlatent_of fd.
 Proof.
-  unfold check_size. intros H Hs cn Hc. rewrite Hs in H. cbn [negb orb] in H. apply (forallb_seq _ _ _ H). lia.
+  unfold latent. destruct d as [s|x].
+  - destruct (is_nil s); [discriminate|]. intros E. injection E as <-.
+    destruct fd; cbn [nlatent_of length]; unfold fam_subset, lin_subset, pafd, pau_code, mogs_pau_code, wsum_flags, opv_subset, gb_subset, bincount;
+      cbn [length]; repeat (progress (rewrite ?map_length, ?app_length, ?seq_length)); cbn [length]; try reflexivity.
+  - destruct fd; cbn [nlatent_of]; try discriminate;
+      match goal with |- context [contrib_of ?g x] => destruct (contrib_of g x) end; cbn [omap]; try discriminate;
+      intros E; injection E as <-; unfold fam_vec, lin_vec, bincount;
+      cbn [length]; repeat (progress (rewrite ?map_length, ?app_length, ?seq_length)); cbn [length]; try reflexivity.
 Qed.
-Lemma flags_ok_1024 (c N : Z) : 1 <= N <= 1024 -> 0 <= c <= N -> size_ok N = true -> flags_ok c N = true.
-Proof.
-  intros HN Hc Hs.
-  assert (E : check_size (Z.to_nat N) = true).
-  { apply (forallb_seq check_size 1 1024 check_1024). split; [lia|]. apply Nat2Z.inj_lt. rewrite Z2Nat.id by lia. rewrite Nat2Z.inj_add. replace (Z.of_nat 1024) with 1024 by (vm_compute; reflexivity). lia. }
-  pose proof (check_size_spec (Z.to_nat N) E) as F. rewrite Z2Nat.id in F by lia.
-  specialize (F Hs (Z.to_nat c)). rewrite Z2Nat.id in F by lia. apply F. apply Nat2Z.inj_le. rewrite !Z2Nat.id by lia. lia.
-Qed.
-
-Lemma eqb_prop_true a b : Bool.eqb a b = true -> a = b. Proof. apply Bool.eqb_prop. Qed.
-
-(** MOGS: the coded test equals the definition on the counts, for every target frequency *)
-Lemma mogs_flag_exact (c N : Z) (tfv : Q) : 1 <= N <= 1024 -> 0 <= c <= N -> size_ok N = true ->
-  mogs_unavail_code (frecipZ c N) tfv = unavail_def c N tfv.
-Proof.
-  intros HN Hc Hs. pose proof (flags_ok_1024 c N HN Hc Hs) as F. unfold flags_ok in F. cbv zeta in F.
-  apply andb_prop in F as [F F4]. apply andb_prop in F as [F F3]. apply andb_prop in F as [F1 F2].
-  apply eqb_prop_true in F1, F2, F3, F4. unfold mogs_unavail_code, unavail_def. rewrite F3, F4.
-  assert (X : Qle_bool tfv 0 = true -> Qle_bool 1 tfv = true -> False).
-  { intros A B. apply Qle_bool_iff in A, B. pose proof (Qle_trans _ _ _ B A) as K. unfold Qle in K; cbn in K; lia. }
-  destruct (Qle_bool tfv 0) eqn:T0, (Qle_bool 1 tfv) eqn:T1; [exfalso; now apply X | | |]; cbn [negb orb andb];
-    destruct (Z.leb_spec c 0), (Z.leb_spec N c), (Z.eqb_spec c N), (Z.eqb_spec c 0); cbn; try reflexivity; try lia.
-Qed.
-
-(** PAU: the coded test is right for a target strictly between 0 and 1 ... *)
-Lemma pau_flag_partial (c N : Z) (tfv : Q) : 1 <= N <= 1024 -> 0 <= c <= N -> size_ok N = true -> t_het tfv = true ->
-  pau_unavail_code (frecipZ c N) tfv = unavail_def c N tfv.
-Proof.
-  intros HN Hc Hs Ht. pose proof (flags_ok_1024 c N HN Hc Hs) as F. unfold flags_ok in F. cbv zeta in F.
-  apply andb_prop in F as [F F4]. apply andb_prop in F as [F F3]. apply andb_prop in F as [F1 F2].
-  apply eqb_prop_true in F1, F2, F3, F4. unfold pau_unavail_code, unavail_def. cbv zeta. rewrite F1, F2, Ht.
-  unfold t_het in Ht. apply andb_prop in Ht as [H0 H1]. apply negb_true_iff in H0, H1. rewrite H0, H1.
-  assert (Em : t_minor tfv = false).
-  { unfold t_minor. destruct (Qeq_bool tfv 0) eqn:E; [|reflexivity]. apply Qeq_bool_iff in E.
-    assert (L : (tfv <= 0)%Q) by (rewrite E; apply Qle_refl). apply Qle_bool_iff in L. congruence. }
-  rewrite Em. destruct (Z.ltb_spec c N), (Z.ltb_spec 0 c), (Z.eqb_spec c N), (Z.eqb_spec c 0); cbn; try reflexivity; try lia.
-Qed.
-(** ... and wrong for a target of exactly 1 (tmajor is computed with the tminor test): two diploids fixed for the
-    wanted allele are reported as lacking it *)
-Lemma pau_tmajor_refuted : exists c N tfv, 1 <= N <= 1024 /\ 0 <= c <= N /\ size_ok N = true /\
-  pau_unavail_code (frecipZ c N) tfv <> unavail_def c N tfv.
-Proof. exists 4, 4, 1%Q. repeat split; try lia. vm_compute. discriminate. Qed.
-(** the rounded reciprocal at a size that is not [size_ok]: 49 copies, all carrying the allele, target 1/2 *)
-Lemma pfreq_reciprocal_refuted : exists c N tfv, 1 <= N <= 1024 /\ 0 <= c <= N /\ t_het tfv = true /\
-  mogs_unavail_code (frecipZ c N) tfv <> unavail_def c N tfv /\ pau_unavail_code (frecipZ c N) tfv <> unavail_def c N tfv.
-Proof. exists 49, 49, (1 # 2)%Q. repeat split; try lia; vm_compute; discriminate. Qed.
-(** the sizes up to 256 where the rounded reciprocal misfires *)
-Lemma bad_sizes_256 : filter (fun N => negb (size_ok (Z.of_nat N))) (seq 1 256) = [49; 98; 103; 107; 161; 187; 196; 197; 206; 214; 237; 239; 249; 253]%nat.
-Proof. vm_compute. reflexivity. Qed.
-
-(** whole-vector statements *)
-Lemma wsum_flags_ext w p t f g : (forall j q, (j < p)%nat -> (q < t)%nat -> f j q = g j q) -> wsum_flags w p t f = wsum_flags w p t g.
-Proof.
-  intros H. unfold wsum_flags. apply map_ext_in. intros q Hq. apply in_seq in Hq. unfold sumf. f_equal. apply map_ext_in. intros j Hj. apply in_seq in Hj. rewrite H by lia. reflexivity.
-Qed.
-Definition geno_ok (ploidy : Z) (G : list (list Z)) (s : list nat) (p : nat) : Prop :=
-  forall j, (j < p)%nat -> 0 <= acount G s j <= popsize ploidy s.
-Lemma mogs_pau_exact pl G w tf p t s : 1 <= popsize pl s <= 1024 -> size_ok (popsize pl s) = true -> geno_ok pl G s p ->
-  mogs_pau_code pl G w tf p t s = pau_def pl G w tf p t s.
-Proof.
-  intros HN Hs Hg. unfold mogs_pau_code, pau_def. apply wsum_flags_ext. intros j q Hj Hq. unfold pfreq_f.
-  apply mogs_flag_exact; [exact HN | apply Hg, Hj | exact Hs].
-Qed.
-Definition targets_het (tf : list (list Q)) (p t : nat) : Prop := forall j q, (j < p)%nat -> (q < t)%nat -> t_het (mget tf j q) = true.
-Lemma pau_partial pl G w tf p t s : 1 <= popsize pl s <= 1024 -> size_ok (popsize pl s) = true -> geno_ok pl G s p -> targets_het tf p t ->
-  pau_code pl G w tf p t s = pau_def pl G w tf p t s.
-Proof.
-  intros HN Hs Hg Ht. unfold pau_code, pau_def. apply wsum_flags_ext. intros j q Hj Hq. unfold pfreq_f.
-  apply pau_flag_partial; [exact HN | apply Hg, Hj | exact Hs | apply Ht; assumption].
-Qed.
-Local Close Scope Z_scope.
